@@ -134,7 +134,7 @@ func c17RunWire(c c17Case) Verdict {
 	w.Send(cv.buf)
 	_, fin := w.Finish()
 	if !fin {
-		return Verdict{Inconclusive: "watchdog while finishing"}
+		return finishFail(w)
 	}
 	rs, err := harness.ParseReplies(w.Out)
 	if err != nil {
